@@ -19442,7 +19442,7 @@ int cg_link_write(const char * nodename, const char * filename, const char * nam
         strcmp(posit->label,"BaseIterativeData_t") &&
         strcmp(posit->label,"Zone_t") &&
         strcmp(posit->label,"ZoneSubRegion_t") &&
-        strcmp(posit->label,"GeometryReference_t ") &&
+        strcmp(posit->label,"GeometryReference_t") &&
         strcmp(posit->label,"Family_t") &&
         strcmp(posit->label,"CGNSBase_t") &&
         strcmp(posit->label,"Gravity_t") &&
